@@ -31,15 +31,21 @@ LEVEL_TEXT = ("Unbounded theorems: cpdag_total (the labelling loop never exhaust
               "topological order: exactly the DAG's nodes, directed/undirected edges partition the DAG's edge set = same skeleton, "
               "directed edges keep the DAG's orientation); cpdag_vstructs_compelled + cpdag_vstructs (every edge of a v-structure is "
               "directed; the CPDAG has exactly the DAG's v-structures, is a well-formed PDAG and the DAG is a consistent extension of "
-              "it); cpdag_model_invariant (the result depends on the edge list only as a set); essential_oracle_correct; "
+              "it); cpdag_compelled_sound (one half of Chickering's theorem, all sizes: every DIRECTED edge of the result lies in every "
+              "Markov-equivalent DAG — via a derivation system (v-structure edges + four orientation rules) proved sound for "
+              "`essential`, closed under the chain-graph step 'w->x derived, x->y, w->y => w->y derived', and preserved by every "
+              "labelling step along the processing order); cpdag_compelled_iff_derivable (the directed edges are EXACTLY the closure of "
+              "the v-structure edges under those rules, so the labelling is a sound and complete implementation of the rule system); cpdag_model_invariant (the result depends on the edge list only as a set); essential_oracle_correct; "
               "essential_classifies (equal essential graphs iff Markov equivalent, about the spec). "
               "Bounded: cpdag_essential_bounded_5 — for EVERY DAG on the nodes 0..n-1, n<=5 (29 281 DAGs at n=5; any edge-list order) "
               "and EVERY topological order, directed edges = edges present in every Markov-equivalent DAG (Prop `essential`); kernel "
               "computation in 8 shards (~75 CPU-s), table-driven per skeleton, proved to imply the naive oracle, enumeration proved "
               "complete. Beyond n=5 'directed iff essential' is observed by correspondence only (oracle up to |E|<=12).")
-LEVEL_NOTE = ("Chickering's correctness proof for Algorithm 5 beyond v-structure edges (compelled => essential for the propagated "
-              "labels, reversible => not essential) is not formalised: it needs the transformational characterisation of equivalence; "
-              "the full statement is cpdag_essential_stmt in C04/Spec.v. The bounded theorem requires the node list to be "
+LEVEL_NOTE = ("The other half of Chickering's theorem (an edge labelled reversible is reversed in some equivalent DAG, "
+              "cpdag_reversible_not_essential_stmt in C04/Spec.v) is proved only for n<=5 (inside cpdag_essential_bounded_5): it needs the "
+              "construction of an equivalent DAG (covered-edge reversals / re-rooting of a chordal chain component), which is not "
+              "formalised; by cpdag_compelled_iff_derivable it is equivalent to an algorithm-free statement about DAGs (a non-derivable "
+              "edge is reversed in some equivalent DAG; proof plan in C04/Spec.v); the full statement is cpdag_essential_stmt in C04/Spec.v. The bounded theorem requires the node list to be "
               "[0;..;n-1]. order_edges is modelled by its closed form (targets from last to first in the topological order, sources "
               "ascending), label_edges loop by loop with fuel. acyclic is stated as existence of a topological numbering. The "
               "implementation is tied to the model at networkx's actual topological order of the very DiGraph it receives.")
